@@ -147,7 +147,9 @@ var allBytes = func() []func(b byte) byte {
 var headerWords = []string{"ply", "format", "ascii", "binary_little_endian", "binary_big_endian", "1.0", "comment", "obj_info",
 	"element", "property", "list", "end_header", "vertex", "face", "vertex_index", "x", "red",
 	"char", "uchar", "short", "ushort", "int", "uint", "float", "double",
-	"int8", "uint8", "int16", "uint16", "int32", "uint32", "float32", "float64", "0", "-1", "4294967296", ""}
+	"int8", "uint8", "int16", "uint16", "int32", "uint32", "float32", "float64", "0", "-1", "4294967296", "",
+	// names a reader might come to accept one day (the value types exist in the package)
+	"int64", "uint64", "long", "ulong", "float16", "half", "bool", "string", "LIST", "Float"}
 
 // reduced replacement sets for pairs of fields
 var pairTokens = []string{"0", "-1", "4294967296"}
@@ -329,6 +331,21 @@ func Enumerate(corpus []*CorpusFile, tier string, seed uint64, visit func(idx in
 					for _, mi := range []int{0, 1 + k%3, 4 + k%4} {
 						d := modes[mi]
 						emit("TRUNC", func() *Case { return mkCase(dec, f, base[:k], []string{fmt.Sprintf("TRUNC@%d", k)}, d) })
+					}
+				}
+				// an I/O error at every offset (persistent; every third offset also
+				// transient, fragmented): the stream fails exactly at every record,
+				// line and token boundary
+				for k := 0; k <= len(base); k++ {
+					k := k
+					emit("R-ERR-AT", func() *Case {
+						return mkCase(dec, f, base, []string{fmt.Sprintf("R-ERR@%d", k)}, simio.Delivery{HasErr: true, ErrAt: k})
+					})
+					if k%3 == 0 {
+						emit("R-ERR-AT", func() *Case {
+							return mkCase(dec, f, base, []string{fmt.Sprintf("R-ERR-TRANSIENT@%d", k)},
+								simio.Delivery{HasErr: true, ErrAt: k, ErrTransient: true, MaxFrag: 7, FragSeed: choice.Derive(hseed, fmt.Sprint("e", k))})
+						})
 					}
 				}
 				// every single-byte replacement (thorough: by every one of the 256 values)
